@@ -136,7 +136,12 @@ fn shape_ops(st: &mut Stats, rng: &mut Rng, r: usize, c: usize) {
         let mut t = am.clone(); expect_inplace(st, "fill_diag", &mut t, |m| m.fill_diag(s), &map(&|i, j| if i == j { s } else { a.a[i][j] }), &d);
         let (lo, di, up) = (rval(rng), rval(rng), rval(rng));
         let mut t = am.clone(); expect_inplace(st, "fill_tridiag", &mut t, |m| m.fill_tridiag(lo, di, up), &map(&|i, j| if i == j { di } else if i == j + 1 { lo } else if i + 1 == j { up } else { a.a[i][j] }), &d);
-        for off in -(r as isize) - 1..=(c as isize) + 1 {
+        // (plus offsets at the ends of the isize range: a band wholly outside the matrix is a legal no-op; isize::MAX only where
+        //  row + offset cannot overflow, i.e. for at most one row)
+        let mut offs: Vec<isize> = (-(r as isize) - 1..=(c as isize) + 1).collect();
+        offs.extend([isize::MIN, isize::MIN + 7, -(1isize << 62)]);
+        if r <= 1 { offs.extend([isize::MAX, isize::MAX - 3]); }
+        for off in offs {
             let mut t = am.clone();
             expect_inplace(st, "fill_band", &mut t, |m| m.fill_band(off, s), &map(&|i, j| if j as isize - i as isize == off { s } else { a.a[i][j] }), &|| format!("offset={} {}", off, d()));
         }
@@ -316,6 +321,22 @@ fn norms(st: &mut Stats, rng: &mut Rng) {
         match catch(|| m.norm_p(p)) {
             Outcome::Ok(g) => { let e = if want == 0.0 { g.abs() } else { ((g - want) / want).abs() }; st.max("norm_p_relerr_over_tol", e / tol); if !(e <= tol) { st.violation("C03:norm_p:wrong-value", format!("norm_p({}) = {:e} expected {:e}; {}", p, g, want, d())); } }
             o => st.violation("C03:norm_p:panic", format!("norm_p({}) {}; {}", p, o.describe(), d())),
+        }
+    }
+    // very large finite p on a matrix of 0 / +-1 entries: the definition is computable, (count of non-zeros)^(1/p), and is
+    // NOT yet the max norm (64^(1/4096) = 1.001)
+    {
+        let (r1, c1) = (rng.usize(1, 8), rng.usize(1, 8));
+        let mut m1 = Matrix::<f64>::new(r1, c1, 0.0);
+        let mut cnt = 0.0f64;
+        for i in 0..r1 { for j in 0..c1 { let v = *rng.pick(&[0.0, 1.0, -1.0, 1.0]); m1[(i, j)] = v; if v != 0.0 { cnt += 1.0; } } }
+        for p in [64.0, 1000.0, 1024.0, 4096.0, 1.0e5] {
+            let want = if cnt == 0.0 { 0.0 } else { cnt.powf(1.0 / p) };
+            st.eval();
+            match catch(|| m1.norm_p(p)) {
+                Outcome::Ok(g) => if !((g - want).abs() <= 1e-12 * want.max(1.0)) { st.violation("C03:norm_p:wrong-value", format!("norm_p({}) = {:?} but a {}x{} matrix with {} entries +-1 (rest 0) has p-norm {}^(1/p) = {:?}", p, g, r1, c1, cnt, cnt, want)); },
+                o => st.violation("C03:norm_p:panic", format!("norm_p({}) {} on a {}x{} 0/+-1 matrix", p, o.describe(), r1, c1)),
+            }
         }
     }
     let want = a.iter().flatten().map(|v| v * v).sum::<f64>().sqrt();
